@@ -127,7 +127,8 @@ def _(c):
     c.owns("self._txn_manager", "self._message_accumulator", "self.client")
     c.requires("self._txn_manager is not None", "transactional-sender")
     c.call("self._message_accumulator.flush_for_commit", havoc_all=True, raises=["CancelledError"],
-           note="MessageAccumulator.flush_for_commit: returns when every batch queued or in flight at the call has been resolved")
+           note="MessageAccumulator.flush_for_commit (under contract, accumulator_flush.py: returns only when every batch "
+                "queued or in flight at the call has been resolved); here only the fact that it was awaited is used")
     c.call("self._find_coordinator", returns=INT, havoc_all=True, raises=["KafkaError", "CancelledError"], note="transaction coordinator lookup")
     c.call("EndTxnHandler", returns=Ref("EndTxnHandler"), post=["fresh(result)", "result._commit_result == a1", "result._sender == a0"],
            note="EndTxnHandler.__init__: stores its arguments")
